@@ -115,6 +115,16 @@ CHECKS = {
             'sent, Vary: Accept-Encoding on both variants of a compressible URL, HEAD consistent with GET.',
             'both sides run clastic (a defect that affects both identically is invisible here; C06/C08 cover those against models); uncaught-exception pages compared by status and first line',
             'DESIGN.md §4 C15'),
+    'C14': ('fault_enumeration',
+            'exhaustive enumeration of request paths built from a segment catalogue + complete fault-position x errno product per served file + Hypothesis path mutations; oracle = own lexical resolver and byte comparison with the generated tree',
+            'A generated directory tree with secrets beside and above the roots is served by a multi-path StaticApplication and by '
+            'two stacked ones. Every path of <=4 catalogue segments (incl. ".", "..", empty, absolute-path pieces) is requested: the '
+            'answer must be 200 with exactly the bytes of the file the lexical resolution names inside the first root that has it, '
+            'or 403/404; escapes are never 200 and no secret byte ever appears; every regular file is served at its clean path. '
+            'For each served file an OS error (4 errnos) is injected at every filesystem call made before the response is '
+            'returned: the answer must be 403/404 (or the next search path\'s file), never 500. If-Modified-Since at/after/before.',
+            'symlink-free tree; faults are injected by patching the names clastic.static looks up (no hook); reads during body streaming are out of scope',
+            'DESIGN.md §4 C14'),
 }
 
 PENDING_REASON = 'check not built yet in this session (planned, see DESIGN.md §4); not claimed until it runs quietly on the unchanged tree'
